@@ -32,7 +32,7 @@ fn webauthn_salt(input: &[u8]) -> Vec<u8> {
 /// one reading of the request: the two salts that apply to the used credential
 type Salts = (Vec<u8>, Option<Vec<u8>>);
 
-fn gen_prf_in(r: &mut Rng, hashed: bool, allow_by_cred: bool) -> PrfIn {
+pub fn gen_prf_in(r: &mut Rng, hashed: bool, allow_by_cred: bool) -> PrfIn {
     let vals = |r: &mut Rng| -> PrfVals {
         if hashed {
             (r.bytes(32), r.bool().then(|| r.bytes(32)))
